@@ -8,7 +8,7 @@ from pv import env, gens
 
 ID = "C18"
 LEVEL = "exploration"
-N = {"quick": 300, "thorough": 6000}
+N = {"quick": 1800, "thorough": 6000}
 RULE = ("cases = (constraint list over 2-4 variables with small-integer coefficients, two plot variables, integer values for the "
         "others, integer axis limits in [-5,5]) built around a witness inside the limits so that polygons, segments, points and empty "
         "slices occur; also a missing value; plot variables listed first or second; oracle: exact rational vertex enumeration (pairwise "
